@@ -415,9 +415,22 @@ func (p *parser) primary() *Node {
 				}
 				break
 			}
+			// optional trigger: forall j by a[j], b[j]: body
+			var pats []*Node
+			if p.isID("by") {
+				p.next()
+				for {
+					pats = append(pats, p.expr())
+					if p.isOp(",") {
+						p.next()
+						continue
+					}
+					break
+				}
+			}
 			p.expectOp(":")
 			body := p.expr()
-			return &Node{Kind: t.s, Vars: vars, Args: []*Node{body}}
+			return &Node{Kind: t.s, Vars: vars, Args: append([]*Node{body}, pats...)}
 		case "if":
 			c := p.expr()
 			if !p.isID("then") {
